@@ -17,7 +17,7 @@ use std::marker::PhantomData;
 use std::net::{IpAddr, Ipv4Addr, Ipv6Addr};
 use std::rc::Rc;
 
-use roto::{Constant, Function, Item, NoCtx, Package, Runtime, location};
+use roto::{Constant, Function, Item, List, NoCtx, Package, Runtime, location};
 use vcore::{Cx, SUB_SETUP, Tier, Value, json};
 
 use crate::ty::B;
@@ -711,8 +711,8 @@ pub fn describe_g2<T: B>(t: Tier, s: u64) -> Value {
                       "r7_script": T::r7_script()});
     }
     let (r, p, i) = unsub(s);
-    if r == R7 {
-        return T::r7_describe(t, p, i);
+    if r == R7 || r == R9 {
+        return T::r7_describe(t, r, p, i);
     }
     let v = ev.get(i);
     let show = v.map(|v| v.show()).unwrap_or_default();
@@ -916,6 +916,154 @@ pub fn r7_two_describe<A: B, E: B, R: B>(n: &Names, t: Tier, pos: u64, idx: usiz
         _ => R::edges(t).get(idx).map(|v| v.show()),
     };
     r7_case(&info::<R>(), pos, idx, &input.unwrap_or_default(), &src)
+}
+
+// ------------------------------------------------------------------ r9
+
+/// r9 (every enum-typed table entry E): lists of three E (mixed variants)
+/// BUILT IN THE SCRIPT - as a literal `[a, b, c]` and by `push` onto `[]` -
+/// and (a) returned to Rust, (b) passed to a host function, (c) indexed back in
+/// the script with `get(i)`; and a Rust-built list read element-wise by the
+/// script. The element stride of a script-built list is the size Roto computes
+/// for E: every element after the first shows a wrong size.
+pub const R9: u64 = 9;
+
+const R9_FN: [&str; 8] = ["", "l_lit", "l_push", "l_host_lit", "l_host_push", "l_get_lit", "l_get_push", "l_read"];
+const R9_WHAT: [&str; 8] = [
+    "",
+    "list literal [a, b, c] built in the script, returned to Rust",
+    "list built in the script by push onto [], returned to Rust",
+    "list literal built in the script, passed to a host function",
+    "list built in the script by push, passed to a host function",
+    "list literal built in the script, element i read back in the script with get(i)",
+    "list built in the script by push, element i read back in the script with get(i)",
+    "Rust-built list, element i read by the script with get(i)",
+];
+
+pub fn script_r9(e: &str) -> String {
+    let lit = "    let l = [a, b, c];\n";
+    let push = "    let l = [];\n    l.push(a);\n    l.push(b);\n    l.push(c);\n";
+    format!(
+        "fn l_lit(a: {e}, b: {e}, c: {e}) -> List[{e}] {{\n{lit}    l\n}}\n\
+         fn l_push(a: {e}, b: {e}, c: {e}) -> List[{e}] {{\n{push}    l\n}}\n\
+         fn l_host_lit(a: {e}, b: {e}, c: {e}) {{\n{lit}    snk_list(l);\n}}\n\
+         fn l_host_push(a: {e}, b: {e}, c: {e}) {{\n{push}    snk_list(l);\n}}\n\
+         fn l_get_lit(a: {e}, b: {e}, c: {e}, i: u64) -> Option[{e}] {{\n{lit}    l.get(i)\n}}\n\
+         fn l_get_push(a: {e}, b: {e}, c: {e}, i: u64) -> Option[{e}] {{\n{push}    l.get(i)\n}}\n\
+         fn l_read(l: List[{e}], i: u64) -> Option[{e}] {{\n    l.get(i)\n}}\n"
+    )
+}
+
+/// the three elements of case i: mixed variants for every enum edge order
+fn triple(n: usize, i: usize) -> [usize; 3] {
+    [i, (i + n / 2) % n, n - 1 - i]
+}
+
+fn r9_input(sh: &[String], i: usize) -> String {
+    let t = triple(sh.len(), i);
+    format!("[{}, {}, {}]", sh[t[0]], sh[t[1]], sh[t[2]])
+}
+
+fn r9_elem(sh: &[String], k: usize) -> String {
+    let (i, j) = (k / 4, k % 4);
+    if j < 3 { format!("Some({})", sh[triple(sh.len(), i)[j]]) } else { "None".into() }
+}
+
+pub fn r9_list<E: B>(cx: &mut Cx) {
+    let t = cx.cfg.tier;
+    let inf = info::<E>();
+    let src = script_r9(&inf.roto);
+    if !cx.case(SUB_SETUP) {
+        return;
+    }
+    let mut items = vec![];
+    push_fn(&mut items, Function::new("snk_list", "", vec!["l"], |l: List<E>| log(l.show()), location!()));
+    let Some((rt, mut pkg)) = setup(cx, &inf, "r9", items, &src) else { return };
+    let before = anomalies_now();
+    let ev = edges::<E>(t);
+    let sh = shows(&ev);
+    let n = ev.len();
+    cx.sample(json!({"route": "r9", "ty": inf.roto, "triples": n, "script": src}));
+    let abc = |i: usize| {
+        let t = triple(n, i);
+        (ev[t[0]].clone(), ev[t[1]].clone(), ev[t[2]].clone())
+    };
+    macro_rules! lp {
+        ($pos:expr, $input:expr, $want:expr) => {
+            Loop {
+                info: &inf,
+                route: "r9",
+                rcode: R9,
+                pos: $pos,
+                script: &src,
+                input: $input,
+                want: $want,
+                fillers: None,
+                what: Some(R9_WHAT[$pos as usize]),
+            }
+        };
+    }
+    let whole = |i: usize| r9_input(&sh, i);
+    let whole_want = |i: usize| (r9_input(&sh, i), vec![]);
+    let elem_in = |k: usize| format!("{} get({})", r9_input(&sh, k / 4), k % 4);
+    let elem_want = |k: usize| (r9_elem(&sh, k), vec![]);
+    for pos in [1u64, 2] {
+        match pkg.get_function::<fn(E, E, E) -> List<E>>(R9_FN[pos as usize]) {
+            Err(e) => getfn_violation(cx, &inf, "r9", R9, pos, &src, e.to_string()),
+            Ok(f) => run_loop(cx, &lp!(pos, &whole, &whole_want), n, &mut |i| {
+                let r = f.call_tuple(&mut NoCtx, abc(i));
+                (r.show(), vec![])
+            }),
+        }
+    }
+    for pos in [3u64, 4] {
+        match pkg.get_function::<fn(E, E, E) -> ()>(R9_FN[pos as usize]) {
+            Err(e) => getfn_violation(cx, &inf, "r9", R9, pos, &src, e.to_string()),
+            Ok(f) => run_loop(cx, &lp!(pos, &whole, &whole_want), n, &mut |i| {
+                take_log();
+                f.call_tuple(&mut NoCtx, abc(i));
+                (take_log().join(" | "), vec![])
+            }),
+        }
+    }
+    for pos in [5u64, 6] {
+        match pkg.get_function::<fn(E, E, E, u64) -> Option<E>>(R9_FN[pos as usize]) {
+            Err(e) => getfn_violation(cx, &inf, "r9", R9, pos, &src, e.to_string()),
+            Ok(f) => run_loop(cx, &lp!(pos, &elem_in, &elem_want), 4 * n, &mut |k| {
+                let (a, b, c) = abc(k / 4);
+                (f.call_tuple(&mut NoCtx, (a, b, c, (k % 4) as u64)).show(), vec![])
+            }),
+        }
+    }
+    match pkg.get_function::<fn(List<E>, u64) -> Option<E>>("l_read") {
+        Err(e) => getfn_violation(cx, &inf, "r9", R9, 7, &src, e.to_string()),
+        Ok(f) => run_loop(cx, &lp!(7u64, &elem_in, &elem_want), 4 * n, &mut |k| {
+            let (a, b, c) = abc(k / 4);
+            let l: List<E> = List::new();
+            l.push(a);
+            l.push(b);
+            l.push(c);
+            (f.call_tuple(&mut NoCtx, (l, (k % 4) as u64)).show(), vec![])
+        }),
+    }
+    report_garbage(cx, &inf, before, "r9");
+    drop(pkg);
+    drop(rt);
+}
+
+pub fn r9_describe<E: B>(t: Tier, pos: u64, idx: usize) -> Value {
+    let inf = info::<E>();
+    let sh: Vec<String> = E::edges(t).iter().map(|v| v.show()).collect();
+    let input = if sh.is_empty() {
+        String::new()
+    } else if pos >= 5 {
+        format!("{} get({})", r9_input(&sh, (idx / 4).min(sh.len() - 1)), idx % 4)
+    } else {
+        r9_input(&sh, idx.min(sh.len() - 1))
+    };
+    let mut c = case_json(&inf, "r9", pos, idx, &input, &script_r9(&inf.roto));
+    c["what"] = json!(R9_WHAT[(pos as usize).min(7)]);
+    c
 }
 
 // ------------------------------------------------------------------ table entries
